@@ -240,10 +240,7 @@ func c06One(env *fw.Env, i int64) {
 			unsolN++
 			n := unsolN
 			pmu.Unlock()
-			fn := byte(1)
-			if n%2 == 0 {
-				fn = 2 // orphan secondary
-			}
+			fn := []byte{1, 2, 0, 1, 2, 254}[n%6] // primary, orphan secondary, orphan abort (SxF0), …, an even function at the top
 			_ = c.Send(peer.Data(21, fn, false, f.Session, 0xC6000000|n, c06Body(fmt.Sprintf("U:%d", n))))
 		}
 
